@@ -171,6 +171,14 @@ class Integer(int, AnyAtomicType):
     _lower_bound: Optional[int] = None
     _higher_bound: Optional[int] = None
 
+    def __new__(cls, value: Union[str, SupportsInt]) -> 'Integer':
+        if isinstance(value, str):
+            # int() also accepts underscores, non-ASCII digits and any Unicode space
+            value = collapse_white_spaces(value)
+            if cls.pattern.match(value) is None:
+                raise cls._invalid_value(value)
+        return super().__new__(cls, value)
+
     def __init__(self, value: Union[str, SupportsInt]) -> None:
         """
         :param value: a string or an integer compatible value.
